@@ -600,6 +600,24 @@ def python_indent(repo):
     raise ValueError("python_indent: how the indentation is written is not recognised")
 
 
+def rename_search(repo):
+    """express.c: does the look-up behind USE/REFERENCE item lists refuse to re-enter a schema that is already being searched?"""
+    t = _strip_comments(_read(repo, "src/express/express.c"))
+    m = re.search(r"static\s+void\s*\*\s*(SCOPE_?find_for_rename)\s*\(\s*Scope\s+schema\s*,\s*char\s*\*\s*name\s*,\s*struct\s+(\w+)\s*\*\s*(\w+)\s*\)\s*\{", t)
+    if not m:
+        b = _body(t, r"static\s+void\s*\*\s*SCOPEfind_for_rename\s*\(\s*Scope\s+schema\s*,\s*char\s*\*\s*name\s*\)\s*\{", "SCOPEfind_for_rename")
+        if not re.search(r"LISTdo\s*\(\s*schema->u\.schema->use_schemas", b) or "SCOPEfind_for_rename( use_schema" not in b:
+            raise ValueError("SCOPEfind_for_rename: recursion over use_schemas not recognised")
+        return False
+    fn, up = m.group(1), m.group(3)
+    b = _body(t, r"static\s+void\s*\*\s*" + fn + r"\s*\(\s*Scope\s+schema\s*,\s*char\s*\*\s*name\s*,\s*struct[^)]*\)\s*\{", fn)
+    g = re.search(r"for\s*\(\s*(\w+)\s*=\s*" + up + r"\s*;\s*\1\s*;\s*\1\s*=\s*\1->up\s*\)\s*\{\s*if\s*\(\s*\1->schema\s*==\s*schema\s*\)\s*\{\s*return\s+0\s*;", b)
+    link = re.search(r"(\w+)\.schema\s*=\s*schema\s*;\s*\1\.up\s*=\s*" + up + r"\s*;", b)
+    rec = re.search(fn + r"\s*\(\s*use_schema\s*,\s*name\s*,\s*&\s*(\w+)\s*\)", b)
+    loop = b.find("LISTdo")
+    return bool(g and link and rec and rec.group(1) == link.group(1) and g.end() < loop and link.end() < loop)
+
+
 def _opt(v):
     return "none" if v is None else f"(some {v})"
 
@@ -619,6 +637,7 @@ def extract(repo):
     sel_stable = select_search(repo)
     nest, otherwise = nesting_limits(repo)
     pyind = python_indent(repo)
+    rs_guard = rename_search(repo)
     L = []
     A = L.append
     A("-- GENERATED by tools/extract.d/c06_buffers.py from src/express/lexact.c, src/express/generated/expparse.c,")
@@ -710,6 +729,8 @@ def extract(repo):
     A(f"def otherwiseResolved : Bool := {str(otherwise).lower()}")
     A("/-- exp2python `python_indent`: one fprintf per level (`.loop`) or one fwrite from an array of n tabs (`.array n`) -/")
     A(f"def pythonIndent : IndentCfg := {pyind}")
+    A("/-- express.c: the rename look-up (`SCOPEfind_for_rename`) does not re-enter a schema that is already on its call chain -/")
+    A(f"def renameSearchPathGuard : Bool := {str(rs_guard).lower()}")
     A("")
     A("end StepModel.Generated.C06")
     return {"C06Buffers.lean": "\n".join(L) + "\n"}
